@@ -13,6 +13,7 @@ TWO_PI = 2 * math.pi
 AVOID_SPEC_TEXT_BUG = False
 # properties about finite samples (C01, C16) switch this on in their own process
 DEGENERATE_WF = False
+INTERP_KWARGS = False  # set by props.c16
 PROTOCOLS = ["min-delay", "no-delay", "wait-for-all"]
 
 
@@ -369,6 +370,13 @@ def _waveform_specs(draw, d, lo, hi, nonneg=False, depth=0, kinds=None,
             # two times that round to the same ns
             if len(times) == n and len({round(t * (d - 1)) for t in times}) == n:
                 out["times"] = times
+        if INTERP_KWARGS and draw(st.integers(0, 2)) == 0:
+            # scipy's interp1d with an explicit kind (not exportable: only where waveforms
+            # themselves are the subject)
+            kinds_ok = ["linear", "previous", "nearest"] + (["quadratic"] if n >= 3 else []) + (
+                ["cubic"] if n >= 4 else [])
+            out["interp"] = "interp1d"
+            out["ikw"] = {"kind": draw(st.sampled_from(kinds_ok))}
         return out
     if k == "custom":
         n = d
@@ -544,7 +552,8 @@ def draw_op(draw, S: GState, P: dict):
     # make it a plain add rather than a re-declaration
     kinds.sort(key=lambda k: k != "add")
     kind = draw(st.sampled_from(kinds))
-    style = draw(st.sampled_from(["pos", "pos", "kw"]))
+    # "pos3": optional arguments are given positionally as well
+    style = draw(st.sampled_from(["pos", "pos", "kw", "pos3"]))
 
     def pick(idx_list):
         return draw(st.sampled_from(idx_list))
